@@ -39,6 +39,18 @@ def simulate(ck, cfg, num, depth=80, procs=None, timeout=3000):
     return docs
 
 
+SZ = '\u1e9e'
+
+
+def concretise(docs):
+    """Put the characters in that the specification writes as ASCII placeholders."""
+    for d in docs:
+        if '{SZ}' in d['src']:
+            d['src'] = d['src'].replace('{SZ}', SZ)
+            d['html'] = d['html'].replace('{SZ}', SZ)
+    return docs
+
+
 def dedupe(docs):
     seen, out = set(), []
     for d in docs:
@@ -70,7 +82,7 @@ def documents(ck, which='blocks'):
     if n_exh < 5000:
         raise core.MachineryError('DocGen.tla exported only %d documents exhaustively' % n_exh)
     ck.extra['docgen_exhaustive_documents'] = n_exh
-    docs = dedupe(docs)
+    docs = dedupe(concretise(docs))
     ck.extra['docgen_distinct_documents'] = len(docs)
     return docs
 
@@ -100,7 +112,7 @@ def roundtrip_records(ck, m, record):
     """C09 hook: round-trip records for generated documents (non-canonical spellings)."""
     docs = simulate(ck, 'DocGenSim.cfg', 1500 if ck.tier == 'quick' else 30000)
     docs += exhaustive(ck, 'DocGenQ.cfg')
-    docs = dedupe(docs)
+    docs = dedupe(concretise(docs))
     out = []
     for i, d in enumerate(docs):
         for nw in (False, True):
